@@ -163,6 +163,21 @@ func subjects(thorough bool) []subject {
 			out = append(out, subject{"tree " + d, func() *jsonschema.Schema { s, _ := tr(); return s }})
 		}
 	}
+	// dynamic-scope roots that reach one $dynamicRef through two resources (everything embedded)
+	k := 0
+	gen.DynTwoScope(func(u *gen.Universe) {
+		k++
+		if len(u.Docs) == 0 && k%(stride/4+1) == 0 {
+			t := u.Root
+			out = append(out, subject{"doc " + t, func() *jsonschema.Schema {
+				var s jsonschema.Schema
+				if json.Unmarshal([]byte(t), &s) != nil {
+					return nil
+				}
+				return &s
+			}})
+		}
+	})
 	// Go literals with unsorted slices and PropertyOrder
 	out = append(out, subject{"literal unsorted", func() *jsonschema.Schema {
 		return &jsonschema.Schema{Type: "object", Required: []string{"z", "b", "a"}, Types: nil, Enum: []any{"z", 3.0, "a", nil},
@@ -182,7 +197,7 @@ var MapRichDocs = []string{
 }
 
 // InstanceTexts for C14 (each also in two non-canonical representations).
-var InstanceTexts = []string{`{"a":"ab","b":1,"c":[1,2]}`, `{"c":1,"a":"x"}`, `[{"b":1,"a":2},{"a":2,"b":1}]`, `[{"a":1,"c":2},{"b":1,"d":2}]`, `1`, `"a"`, `{"b":"s","a":1,"ab":2}`, `[3,1,2]`, `{"p":{},"q":[9]}`, `null`}
+var InstanceTexts = []string{`[9,1]`, `[1,9]`, `{"p":9,"q":1}`, `{"q":2,"p":9}`, `[2,2]`, `{"a":"ab","b":1,"c":[1,2]}`, `{"c":1,"a":"x"}`, `[{"b":1,"a":2},{"a":2,"b":1}]`, `[{"a":1,"c":2},{"b":1,"d":2}]`, `1`, `"a"`, `{"b":"s","a":1,"ab":2}`, `[3,1,2]`, `{"p":{},"q":[9]}`, `null`}
 
 type result struct {
 	marshal string
@@ -259,9 +274,28 @@ func Run(r *ev.Run) {
 			}
 			return b.String()
 		}
-		if rs, err := s0.Resolve(nil); err == nil {
+		if _, err := s0.Resolve(nil); err == nil {
 			init.resolve = "ok"
-			init.verdict = verd(rs)
+			// reference verdicts: every instance on its own freshly resolved schema, so that
+			// a leak from one Validate call into the next shows up in the histories below
+			var b strings.Builder
+			for _, in := range insts {
+				rs1, err := s0.Resolve(nil)
+				if err != nil {
+					b.WriteByte('E')
+					continue
+				}
+				ok, p := drive.Verdict(rs1, in.x())
+				switch {
+				case p != "":
+					b.WriteByte('P')
+				case ok:
+					b.WriteByte('1')
+				default:
+					b.WriteByte('0')
+				}
+			}
+			init.verdict = b.String()
 		} else {
 			init.resolve = "error"
 		}
@@ -412,10 +446,15 @@ func digestMode(r *ev.Run) {
 		if b, err := json.Marshal(s0); err == nil {
 			m = string(b)
 		}
-		if rs, err := s0.Resolve(nil); err == nil {
+		if _, err := s0.Resolve(nil); err == nil {
 			res = "ok"
 			var b strings.Builder
 			for _, in := range insts {
+				rs, err := s0.Resolve(nil)
+				if err != nil {
+					b.WriteByte('E')
+					continue
+				}
 				ok, p := drive.Verdict(rs, in())
 				if p != "" {
 					b.WriteByte('P')
